@@ -77,14 +77,14 @@ theorem flattenNd_col_get (a : NdSparse α) (m i : Nat) (hr : a.ranges = [m]) (h
   unfold flattenNd
   rw [tab2_get_mk _ _ _ _ _ hi (by omega), get_eq_entSum]
   have key := accumulate_pos_get a.entries
-    (fun idx => (rowMajor a.ranges idx / 1) * 1 + rowMajor a.ranges idx % 1) (m * 1) (i * 1 + 0)
+    (fun idx => (glamRowMajor a.ranges idx / 1) * 1 + glamRowMajor a.ranges idx % 1) (m * 1) (i * 1 + 0)
     (by omega) [i] (by
       intro e he
       have hv := hwf e he
       rw [hr, idxIn_one] at hv
       obtain ⟨g, hg, heg⟩ := hv
       rw [heg, hr]
-      simp [rowMajor, natProd, Nat.mod_one])
+      simp [glamRowMajor, natProd, Nat.mod_one])
   exact key
 
 /-- `slicemultiply` of a one-dimensional tensor, as a sum over the listed entries -/
@@ -157,8 +157,8 @@ theorem evensFirst_pair {β : Type} (a b : β) : evensFirst [a, b] = [a, b] := r
 
 theorem doubleDims_one (m q : Nat) : doubleDims [m] [q] = [q / m, q % m] := rfl
 
-theorem rowMajor_pair (m a b : Nat) : rowMajor [m, m] [a, b] = a * m + b := by
-  simp [rowMajor, natProd]
+theorem rowMajor_pair (m a b : Nat) : glamRowMajor [m, m] [a, b] = a * m + b := by
+  simp [glamRowMajor, natProd]
 
 /-- the reshape of `F` (double the dimensions, even axes first) followed by
 `flatten_ndarray_to_sparse(F, n, n)`: entry `(i, j)` holds the value of the boxed tensor at `[i·n + j]` -/
@@ -170,8 +170,8 @@ theorem flattenNd_F_get (F : NdSparse α) (m i j : Nat) (hr : F.ranges = [m * m]
   rw [tab2_get_mk _ _ _ _ _ hi hj, get_eq_entSum]
   simp only [List.map_map]
   have key := accumulate_pos_get F.entries
-    (fun idx => (rowMajor (evensFirst ([m].flatMap fun n => [n, n])) (evensFirst (doubleDims [m] idx)) / m) * m
-      + rowMajor (evensFirst ([m].flatMap fun n => [n, n])) (evensFirst (doubleDims [m] idx)) % m)
+    (fun idx => (glamRowMajor (evensFirst ([m].flatMap fun n => [n, n])) (evensFirst (doubleDims [m] idx)) / m) * m
+      + glamRowMajor (evensFirst ([m].flatMap fun n => [n, n])) (evensFirst (doubleDims [m] idx)) % m)
     (m * m) (i * m + j) (tab2_index_lt hi hj) [i * m + j] (by
       intro e he
       have hv := hwf e he
@@ -296,7 +296,7 @@ theorem glam_eq_kron_1d (d : Dim α) (xs : List α) (data : List (List Nat × α
   obtain ⟨F', hF, hFget⟩ := glam_fmat_1d d xs (data.zip weights) hd hax hs
   have hN : natProd [d.naxes] = d.naxes := by simp [natProd]
   have hncoef : P.ncoef = d.naxes := hN
-  simp only [glamSystem, List.zip_cons_cons, List.zip_nil_right, List.map_cons, List.map_nil, convolve, hF, hR]
+  simp only [glamSystem, List.zip_cons_cons, List.zip_nil_right, List.map_cons, List.map_nil, glamConvolve, hF, hR]
   rw [hN]
   refine ⟨_, rfl, ?_, ?_⟩
   · intro i hi j hj
